@@ -110,6 +110,10 @@ def gen_cases(rng, tier):
         cases.append(_case("r%d" % i, hist, rng))
     for i, hist in enumerate((["180:a"], ["200:a"], ["183:a", "200:a"])):
         cases.append(_case("nc%d" % i, hist, rng, nocontact=True))
+    # a 100 may carry a To-tag (RFC 3261 8.2.6.2): it is still a 100 - provisional, no dialog, no effect on the early dialogs
+    for i, hist in enumerate((["100:t", "200:a"], ["180:a", "100:t", "200:a"], ["180:a", "100:a", "183:a", "200:a"], ["100:t", "180:a", "100:t", "486:-"],
+                              ["183:a", "180:b", "100:b", "200:b", "200:a"], ["100:a"], ["100:t", "100:-", "404:a"])):
+        cases.append(_case("tt%d" % i, hist, rng))
     # a dialog-creating response the caller cannot use (To-tag but no Contact: reported as an error, nothing is created) must leave no
     # trace: what comes later for that To-tag is classified as if it were the first
     for i, hist in enumerate((["183:a!", "200:a"], ["183:a!", "180:a"], ["183:a!", "180:a", "200:a"], ["180:b", "183:a!", "200:a"], ["100:-", "183:a!", "183:a!", "180:a", "486:-"],
